@@ -689,7 +689,15 @@ func (vc *FuncVC) execReturn(st *State, reach Term, ins *ssa.Return) {
 	}
 	for j, en := range vc.fc.Ensures {
 		if vc.mentionsUnallocatedLocal(en.E, vars) {
-			continue // the clause talks about a local that does not exist yet at this return
+			// the clause talks about a local that does not exist yet at this return
+			if vc.discovery == 0 {
+				lab := en.Name
+				if lab == "" {
+					lab = fmt.Sprintf("%d", j+1)
+				}
+				vc.skipped = append(vc.skipped, fmt.Sprintf("%s/post/%s/ret%d", vc.name, lab, k))
+			}
+			continue
 		}
 		label := en.Name
 		if label == "" {
